@@ -31,6 +31,18 @@ def is_fits(filename, mode='r'):
         return False
 
 
+def _to_card(value):
+    # A FITS header card cannot hold an infinite (or NaN) number, e.g.
+    # min_value=-inf: write it as text
+    if isinstance(value, (float, np.floating)) and not np.isfinite(value):
+        return repr(float(value))
+    return value
+
+
+def _from_card(value):
+    return float(value) if isinstance(value, str) else value
+
+
 def dendro_export_fits(d, filename):
     """Export the dendrogram 'd' to the FITS file 'filename'"""
     from astropy.io import fits
@@ -40,11 +52,11 @@ def dendro_export_fits(d, filename):
     except AttributeError:
         primary_hdu = fits.PrimaryHDU()
 
-    primary_hdu.header["MIN_NPIX"] = (d.params['min_npix'],
+    primary_hdu.header["MIN_NPIX"] = (_to_card(d.params['min_npix']),
                                       "Minimum number of pixels in a leaf.")
-    primary_hdu.header["MIN_DELT"] = (d.params['min_delta'],
+    primary_hdu.header["MIN_DELT"] = (_to_card(d.params['min_delta']),
                                       "Minimum branch height.")
-    primary_hdu.header["MIN_VAL"] = (d.params['min_value'],
+    primary_hdu.header["MIN_VAL"] = (_to_card(d.params['min_value']),
                                      "Minimum intensity value.")
 
     hdus = [primary_hdu,
@@ -73,9 +85,9 @@ def dendro_import_fits(filename):
 
         if 'MIN_NPIX' in hdus[0].header:
 
-            params = {"min_npix": hdus[0].header['MIN_NPIX'],
-                      "min_value": hdus[0].header['MIN_VAL'],
-                      "min_delta": hdus[0].header['MIN_DELT']}
+            params = {"min_npix": _from_card(hdus[0].header['MIN_NPIX']),
+                      "min_value": _from_card(hdus[0].header['MIN_VAL']),
+                      "min_delta": _from_card(hdus[0].header['MIN_DELT'])}
 
         else:
 
